@@ -73,6 +73,7 @@ func runC04(c *Ctx, r *Report, tier string) {
 	r.Rule("OUT-buffer", "showBuiltinHelp renders into a local buffer", 1)
 	r.Rule("TYPED", "every error stored to parseState.err or returned from the parse functions originates from nil, a typed constructor, parseState.err, Parser.internalError or user code; foreign errors only through marshalError/wrapError or the ok-edge of err.(*Error)", 8)
 	r.Rule("TYPE-table", "each *Error constructor site on the parse path carries the documented ErrorType for its cause", 10)
+	r.Rule("VALID", "in convert / convertUnmarshal every reflect.Value.Elem() is REQ(¬IsNil) or follows a Set of the same value", 3)
 	r.Rule("PROGRESS", "the token-consuming loops make progress on every iteration", 2)
 	scope := parseScope(c, r)
 	if scope == nil {
@@ -496,6 +497,32 @@ func (c *Ctx) progressRules(r *Report) {
 	if pa == nil || aa == nil {
 		return
 	}
+	// VALID: convert and convertUnmarshal start with retval.Type(): the zero Value (Elem of a nil interface/pointer) must not reach them
+	nValid := 0
+	for _, name := range []string{"convert", "convertUnmarshal"} {
+		root := c.mustFn(r, name)
+		if root == nil {
+			continue
+		}
+		for _, fn := range c.Funcs {
+			if !c.actsFor(fn, root) {
+				continue
+			}
+			for _, in := range c.instrs(fn, c.isCallTo("(reflect.Value).Elem")) {
+				call := in.(ssa.CallInstruction)
+				x := call.Common().Args[0]
+				xt := c.term(x)
+				nValid++
+				setX := func(i ssa.Instruction) bool {
+					ci, ok := i.(ssa.CallInstruction)
+					return ok && c.calleeName(ci.Common()) == "(reflect.Value).Set" && c.term(ci.Common().Args[0]) == xt
+				}
+				path, ok := c.MustPass(fn, isInstr(in), setX, litIs("call:(reflect.Value).IsNil("+xt+")", false), nil)
+				r.Check(ok, "VALID", c.fname(fn), "Elem() only of a value known not to be nil", c.ipos(in), "REQ(¬IsNil(x)) or MPT(x.Set(…))", "Elem() of a possibly nil interface/pointer yields the zero Value, and the next convert/convertUnmarshal panics in Type(): "+pathStr(path))
+			}
+		}
+	}
+	r.Check(nValid >= 2, "VALID", "convert", "Elem() sites found", "", "≥ 2", fmt.Sprintf("%d", nValid))
 	argsField := c.mustField(r, "parseState", "args")
 	loop := c.loopContaining(pa, c.isCallTo("(*parseState).pop"))
 	if loop != nil && argsField != nil {
